@@ -46,8 +46,8 @@ LATTICE = {
     'clevel': [-1, 0, 1, 2],
     'tol': [1e-6, 1e-3, 1e-9],
     'maxit': [50, 1, 2, 3],
-    'efield': [None, 'zeros', 'rnd', 'exact', 'near', 'wrongdtype',
-               'nofreq'],
+    'efield': [None, 'zeros', 'rnd', 'exact', 'near', 'lifted',
+               'wrongdtype', 'nofreq'],
     'return_info': [True, False],
     'plain': [False, True],
     'verb': [0, -1, 1, 2, 3, 4, 5],
@@ -129,6 +129,21 @@ def make_source(grid, kind, freq):
     raise ValueError(kind)
 
 
+def _upper_planes(n):
+    """Masks (per component) of tangential edges on the upper boundary
+    planes (last node index of the transverse directions)."""
+    out = []
+    for d, sh in enumerate(fit.shapes(n)):
+        m = np.zeros(sh, dtype=bool)
+        for o in range(3):
+            if o != d:
+                sl = [slice(None)]*3
+                sl[o] = -1
+                m[tuple(sl)] = True
+        out.append(m)
+    return out
+
+
 def reported(cfg, info, out):
     """Reported status: (known, success, message)."""
     if info is not None:
@@ -193,6 +208,16 @@ def case(c):
             e0 = fit.solve_direct(A, svec, n).astype(dtype)
             if ekind == 'near':
                 e0 = e0*(1 + 1e-4)
+        elif ekind == 'lifted':
+            # solves the system only thanks to non-zero tangential values on
+            # the upper boundary planes (which the PEC zeroing must remove
+            # BEFORE the 'already good enough' test)
+            bvals = zoo.random_field(grid, 'lift', dtype, pec=False)*1e-9
+            upper = np.concatenate([
+                np.ravel(m_, order='F') for m_ in _upper_planes(n)])
+            bvals = bvals*upper
+            rhs = svec - A @ bvals
+            e0 = (fit.solve_direct(A, rhs, n) + bvals).astype(dtype)
         elif ekind == 'wrongdtype':
             e0 = np.zeros(im.size, dtype=float if np.dtype(dtype).kind == 'c'
                           else complex)
